@@ -12,9 +12,9 @@ def gen_script(rng, nops, max_live):
     handles = []       # (world, alive)
     for _ in range(nops):
         c = rng.weighted([('new', 14 if len(live) < max_live else 0), ('del', 8 if live else 0), ('create', 30 if live else 0),
-                          ('destroynow', 14 if handles else 0), ('update', 5 if live else 0), ('probe', 6 if live else 0)])
-        if c == 'probe':
-            lines.append('probe %d' % rng.pick(live))
+                          ('destroynow', 14 if handles else 0), ('update', 5 if live else 0), ('probe', 6 if live else 0), ('evprobe', 6 if live else 0)])
+        if c in ('probe', 'evprobe'):
+            lines.append('%s %d' % (c, rng.pick(live)))
             continue
         if c == 'new':
             lines.append(rng.weighted([('new', 5), ('newshared', 3), ('newdefault', 2)]))
@@ -71,6 +71,11 @@ def tier_a(impl):
                 target = int(t[1])
                 if len(r) > 1 and r[1:] != ['probe', 'create=1', 'assign=1']:
                     fail = 'world w%s does not honour a dependency declared on it (%s): worlds do not behave identically' % (t[1], ' '.join(r[2:])); break
+            elif t[0] == 'evprobe':
+                target = int(t[1])
+                kv = dict(x.split('=') for x in r[2:] if '=' in x)
+                if kv and (kv.get('own') != '1' or kv.get('foreign') != '0'):
+                    fail = 'events of world w%s: its receiver heard %s of 1 own post and %s post(s) made through %s other live world(s)' % (t[1], kv.get('own'), kv.get('foreign'), kv.get('others')); break
             ids = {}
             for x in (b['tags'].get('I') or ['I'])[0].split()[1:]:
                 w, v = x.split('=')
